@@ -96,6 +96,56 @@ func genBlockPlan(seed uint64, thorough bool) *Plan {
 		p.Clients = append(p.Clients, observation(append(keys, "dst"), 2))
 		return p
 	}
+	if class == 1 && len(keys) >= 2 {
+		// multikey class: a waiter on several keys with single-key waiters
+		// queued behind it; pushes to several of its keys arrive together (one
+		// EXEC, or two producers at once). A waiter woken through one key must
+		// not consume the wake-up meant for the next waiter of another key.
+		p.Class = "multikey"
+		mk := []string{g.pick("BLPOP", "BRPOP")}
+		mk = append(mk, keys...)
+		mk = append(mk, "0")
+		if g.chance(4) {
+			mk = append([]string{"BLMPOP", "0", strconv.Itoa(len(keys))}, keys...)
+			mk = append(mk, g.pick("LEFT", "RIGHT"))
+		}
+		p.Clients = append(p.Clients, Client{Name: "waiter", Items: []Item{{Args: bs(mk...)}}})
+		nw := 1 + g.r.IntN(3)
+		for w := 0; w < nw; w++ {
+			k := keys[1+g.r.IntN(len(keys)-1)]
+			if g.chance(4) {
+				k = keys[0]
+			}
+			p.Clients = append(p.Clients, Client{Name: "waiter", Items: []Item{{Op: "await-blocked", N: int64(w)}, cmdItem(g.pick("BLPOP", "BRPOP"), k, "0")}})
+		}
+		g.client = 9
+		var pushes [][]string
+		for _, k := range keys {
+			if g.chance(5) {
+				continue
+			}
+			pushes = append(pushes, []string{g.pick("LPUSH", "RPUSH"), k, g.val()})
+		}
+		if len(pushes) == 0 {
+			pushes = append(pushes, []string{"RPUSH", keys[0], g.val()})
+		}
+		if g.chance(2) {
+			items := []Item{{Op: "await-blocked", N: int64(nw)}, cmdItem("MULTI")}
+			for _, a := range pushes {
+				items = append(items, cmdItem(a...))
+			}
+			items = append(items, cmdItem("EXEC"))
+			p.Clients = append(p.Clients, Client{Name: "producer", Items: items})
+		} else {
+			for _, a := range pushes {
+				p.Clients = append(p.Clients, Client{Name: "producer", Items: []Item{{Op: "await-blocked", N: int64(nw)}, cmdItem(a...)}})
+			}
+		}
+		obs := observation(append(append([]string{}, keys...), "dst"), 2)
+		obs.Items = append([]Item{{Op: "await-idle"}}, obs.Items[1:]...)
+		p.Clients = append(p.Clients, obs)
+		return p
+	}
 	p.Class = "mixed"
 	nc := 2 + g.r.IntN(3)
 	for c := 0; c < nc; c++ {
